@@ -12,6 +12,14 @@ CHECKS = {
     note='Trusts the documented GVF text format as re-implemented by the check; records are built from the attribute sets the bundled parsers emit; pointer-level access (before coordinate conversion) is compared, end-to-end access is covered by C06.'),
 }
 
+CHECKS['C11'] = dict(level='exploration', design='6/C11',
+    technique='property-based testing (Hypothesis): model-based oracle (explicit index arrays) with per-annotation exhaustive position enumeration, differential on-disk vs parsed annotation over generated access sequences, GTF write/parse round trip',
+    text='For generated annotations every gene/transcript position is converted in all directions and compared with explicit index arrays; sequences, ORF and Sec positions are compared with the model; the cached on-disk annotation (generated or loaded index, reduced cache sizes) must equal the fully parsed one after any access sequence; GtfIO.write -> dump_gtf must preserve all models.',
+    note='Trusts the check\'s own GTF writer (GENCODE conventions; GENCODE/ENSEMBL-style UTR features) and the ORF-end rule derived from CDS/UTR features; annotation sizes are small (<=3 genes, <=3 isoforms).')
+CHECKS['C10'] = dict(level='exploration', design='6/C10',
+    technique='exhaustive enumeration of bounded strings per cleavage rule against an independent position-constraint enzyme model + property-based testing (Hypothesis) of the pool against a model digest over three construction paths',
+    text='Rule semantics are compared exhaustively on all strings up to a bounded length over each rule\'s reduced alphabet (site iterator and with-range iterator against an independent model); canonical pools built on the fly, by generateIndex and by updateIndex for generated proteomes and settings must equal the model digest (I->L images, Met-removed forms, leading X, internal stop, cds_start_NF).',
+    note='Exhaustive only for the bounded string domain stated in the evidence; enzyme tables transcribed by hand from ExPASy; mass via Bio.SeqUtils (shared).')
 NOT_YET = {}
 
 def main():
